@@ -513,8 +513,12 @@ class Fetcher:
                         # cancellation
                         if not task.done():
                             task.cancel()
-                        with contextlib.suppress(asyncio.CancelledError):
-                            await task
+                            # NOTE: not `await task` under suppress(): that
+                            # would also swallow a cancellation of this very
+                            # routine (`close()` would then wait forever)
+                            await asyncio.wait([task])
+                        if not task.cancelled():
+                            task.result()
                     self._pending_tasks.clear()
                     self._records.clear()
 
